@@ -80,7 +80,7 @@ Verdict eval_c04(const Scene &s) {
         const Conn &c = s.conns[i];
         VisGraph g(s.shapes, c.a, c.b);
         std::string bad = routeInvalid(R.disp[i], c.a, c.b, s.shapes, 1e-7);
-        if (!bad.empty()) { v.fail(fmt("connector %zu: %s; route %s", i, bad.c_str(), ptsStr(R.disp[i]).c_str()), "invalid-route"); break; }
+        if (!bad.empty()) { v.fail(fmt("connector %zu: %s; route %s", i, bad.c_str(), ptsStr(R.disp[i]).c_str()), bad.find("[through two of its vertices]") != std::string::npos ? "F26-sight-line-through-two-vertices" : "invalid-route"); break; }
         int nb = 0;
         double cost = polyCost(R.disp[i], pen, &nb);
         if (pen == 0) {
